@@ -498,7 +498,7 @@ func (c *ctx) judgeFset(o *fsetOp) (out, key, desc string) {
 		for _, w := range want {
 			wantSet[w] = true
 			if !got[w] {
-				if sibling[w] {
+				if sibling[w] && c.listedWithoutIgnores(root, o, w) {
 					return out, "dir-ignore-sibling-prefix", fmt.Sprintf(
 						"file_set in package %q with Select %q, Ignore %q drops %q, which is selected and not beneath an ignored directory (its name only starts with the directory's name)",
 						o.p, o.sel, o.ign, w)
@@ -516,6 +516,21 @@ func (c *ctx) judgeFset(o *fsetOp) (out, key, desc string) {
 		}
 	}
 	return out, "", ""
+}
+
+// listedWithoutIgnores: the same rule without its Ignore list does list w
+// (so the ignores, not the selection, dropped it)
+func (c *ctx) listedWithoutIgnores(root string, o *fsetOp, w string) bool {
+	v, err := caco3.VerifNewFileSet(root, o.p, &caco3.FileSet{Name: o.name, Files: o.files, Select: o.sel})
+	if err != nil {
+		return false
+	}
+	for _, f := range v.Files {
+		if f == w {
+			return true
+		}
+	}
+	return false
 }
 
 func quote(s string) string { return strconv.Quote(s) }
@@ -618,7 +633,7 @@ func (c *ctx) judgeBuild(o *fsetOp) (out, key, desc string) {
 		}
 		for _, w := range want {
 			if !got[w] {
-				if sibling[w] {
+				if sibling[w] && c.listedWithoutIgnores(root, o, w) {
 					return out, "dir-ignore-sibling-prefix", fmt.Sprintf(
 						"%s.fileset built from Select %q, Ignore %q lacks %q, which is selected and not beneath an ignored directory", target, o.sel, o.ign, w)
 				}
@@ -964,7 +979,9 @@ func allTrees(pkg string) [][]string {
 	return out
 }
 
-var selects = []string{"*", "**", "foo*", "foo/**", "*.txt", "*/*", "foo/*", "f?o", "[e-g]oo*", "foo", "nosuch", "sub/**", "./foo/../*", "/foo*"}
+var selects = []string{"*", "**", "foo*", "foo/**", "*.txt", "*/*", "foo/*", "f?o", "[e-g]oo*", "foo", "nosuch", "sub/**", "./foo/../*", "/foo*",
+	// globs that merely end in ** (no slash before it), ** in front and in the middle: ordinary globs, not recursive selects
+	"foo**", "fo**", "sub/t**", "foo/b**", "**.txt", "*/**/*", "nos**"}
 var ignores = []string{"foo/", "foo", "*.txt", "foo*", "foobar/", "./", "foo/b*", "[", "*/x", "fo/", "sub/", "/foo/", "foo/bar/"}
 var fileLists = [][]string{nil, {"foo.txt"}, {"../x", "/abs/y"}, {"foo/bar", "./a.txt"}, {"foobar/x"}}
 var globExtra = []string{`fo\o`, `[`, `foo*/[`, `*/[`, `f[`, `\`, `foo\`, `*/\`, `[a-`, `foo/[b]*`, `*o*/*`, `?oo`, `*/*/*`, `sub/.*`, `sub/.git`, `[^f]*`, `*[^t]`}
@@ -1001,7 +1018,7 @@ func (g *gen) treeOps(thorough bool, nbuild int) {
 			}
 		}
 		if thorough {
-			for _, s := range selects[:8] {
+			for _, s := range append(append([]string{}, selects[:8]...), "foo**", "sub/t**") {
 				for a := 0; a < len(ignores); a++ {
 					for b := a + 1; b < len(ignores); b++ {
 						g.fsetOp("fset", p, t, "s", nil, []string{s}, []string{ignores[a], ignores[b]}, nil)
